@@ -15,18 +15,11 @@ fn hash_seed_stub(seed: &[u8], hash: &mut [u8]) {
     unsafe {
         HASH_SEED_CALLS += 1;
         HASH_SEED_LEN = seed.len();
-        let mut i = 0;
-        while i < seed.len() && i < 32 {
-            HASH_SEED_IN[i] = seed[i];
-            i += 1;
-        }
+        let n = if seed.len() < 32 { seed.len() } else { 32 };
+        copy_bytes_sym::<2>(&mut HASH_SEED_IN, &seed[..n]);
         let out: [u8; 32] = kani::any();
         HASH_SEED_OUT = out;
-        let mut i = 0;
-        while i < 32 {
-            hash[i] = out[i];
-            i += 1;
-        }
+        copy_bytes(hash, &out);
     }
 }
 
@@ -37,11 +30,7 @@ fn expected_hash(entropy: &[u8]) -> [u8; 32] {
         unsafe {
             assert!(HASH_SEED_CALLS == 1, "checksum hash must be computed exactly once");
             assert!(HASH_SEED_LEN == entropy.len(), "checksum hashed over the wrong number of bytes");
-            let mut i = 0;
-            while i < entropy.len() {
-                assert!(HASH_SEED_IN[i] == entropy[i], "checksum hashed over different bytes than the entropy");
-                i += 1;
-            }
+            assert!(bytes_eq_sym::<2>(&HASH_SEED_IN[..entropy.len()], entropy), "checksum hashed over different bytes than the entropy");
             HASH_SEED_OUT
         }
     } else {
@@ -85,6 +74,7 @@ crate::verif_harness! {
 }
 
 // ------------------------------------------------------------------------------------- parsing
+const DUMMY_W: &str = "w w w w w w w w w w w w w w w w w w w w w w w w w";
 const DUMMY: &str = "a a a a a a a a a a a a a a a a a a a a a a a a a a a a a a a a a a a a a a a a a a a a";
 
 /// Big-endian concatenation of W 11-bit indices.
@@ -104,7 +94,32 @@ fn pack_bits<const W: usize>(idx: &[u16; W]) -> [u8; 33] {
     bits
 }
 
+/// Separators used by the "messy layout" variant: every kind of Unicode whitespace the parser must
+/// ignore, runs of it, and leading/trailing whitespace.
+const SEPS: [&str; 7] = ["\t", "\n", "  ", "\r\n", "\u{3000}", " \u{a0}", "\u{2003}\t "];
+
+fn layout(words: &[&str], messy: bool) -> String {
+    if !messy {
+        return words.join(" ");
+    }
+    let mut s = String::from("\n ");
+    let mut k = 0;
+    while k < words.len() {
+        if k > 0 {
+            s.push_str(SEPS[k % 7]);
+        }
+        s.push_str(words[k]);
+        k += 1;
+    }
+    s.push_str(" \t");
+    s
+}
+
 fn run_unpack<const W: usize>(idx: &[u16; W]) -> bool {
+    run_unpack_layout::<W>(idx, false)
+}
+
+fn run_unpack_layout<const W: usize>(idx: &[u16; W], messy: bool) -> bool {
     let ent_len = W * 4 / 3;
     let cs_bits = W / 3;
     unsafe {
@@ -117,7 +132,11 @@ fn run_unpack<const W: usize>(idx: &[u16; W]) -> bool {
         }
     }
     let phrase: String = if stubs_active() {
-        DUMMY[..2 * W - 1].to_string()
+        if messy {
+            layout(&["a"; W], true)
+        } else {
+            DUMMY[..2 * W - 1].to_string()
+        }
     } else {
         // native replay: spell the indices with the real words ("zzzz" is not in the list)
         let list = Language::English.wordlist();
@@ -125,7 +144,7 @@ fn run_unpack<const W: usize>(idx: &[u16; W]) -> bool {
         for k in 0..W {
             words.push(if (idx[k] as usize) < WORD_COUNT { list.word(idx[k] as usize) } else { "zzzz" });
         }
-        words.join(" ")
+        layout(&words, messy)
     };
     let got = Mnemonic::from_phrase_str(&phrase);
 
@@ -145,16 +164,8 @@ fn run_unpack<const W: usize>(idx: &[u16; W]) -> bool {
             let checksum = bits[ent_len] >> (8 - cs_bits);
             assert!(hash[0] >> (8 - cs_bits) == checksum, "phrase with a checksum mismatch accepted");
             assert!(m.len == ent_len, "entropy length");
-            let mut i = 0;
-            while i < ent_len {
-                assert!(m.buf[i] == bits[i], "entropy differs from the concatenated word indices");
-                i += 1;
-            }
-            let mut i = 0;
-            while i < 32 {
-                assert!(m.buf[ent_len + i] == hash[i], "stored checksum hash differs");
-                i += 1;
-            }
+            assert!(bytes_eq_sym::<2>(&m.buf[..ent_len], &bits[..ent_len]), "entropy differs from the concatenated word indices");
+            assert!(bytes_eq(&m.buf[ent_len..ent_len + 32], &hash), "stored checksum hash differs");
             assert!(m.mnemonic_length() == W, "reported length is not the word count");
             true
         }
@@ -201,11 +212,28 @@ fn check_unpack<const W: usize>() {
     }
 }
 
-mnemonic_harness! { #[kani::unwind(50)] fn c01_unpack_12() { check_unpack::<12>() } }
-mnemonic_harness! { #[kani::unwind(62)] fn c01_unpack_15() { check_unpack::<15>() } }
-mnemonic_harness! { #[kani::unwind(74)] fn c01_unpack_18() { check_unpack::<18>() } }
-mnemonic_harness! { #[kani::unwind(86)] fn c01_unpack_21() { check_unpack::<21>() } }
-mnemonic_harness! { #[kani::unwind(98)] fn c01_unpack_24() { check_unpack::<24>() } }
+// Whitespace layout is irrelevant: the same decision and the same entropy for a phrase whose words are
+// separated by tabs, newlines, CRLF, runs of spaces, U+3000, U+00A0, U+2003, with leading and trailing
+// whitespace (layout concrete, word indices and hash symbolic).
+fn check_layout<const W: usize>() {
+    let idx: [u16; W] = kani::any();
+    let mut k = 0;
+    while k < W {
+        kani::assume(idx[k] as usize <= WORD_COUNT);
+        k += 1;
+    }
+    let ok = run_unpack_layout::<W>(&idx, true);
+    kani::cover!(ok, "accepted");
+    kani::cover!(!ok && idx[0] < 2048 && idx[W - 1] < 2048 && idx[W / 2] < 2048, "rejected for its checksum");
+}
+mnemonic_harness! { #[kani::unwind(62)] fn c01_layout_12() { check_layout::<12>() } }
+mnemonic_harness! { #[kani::unwind(122)] fn c01_layout_24() { check_layout::<24>() } }
+
+mnemonic_harness! { #[kani::unwind(26)] fn c01_unpack_12() { check_unpack::<12>() } }
+mnemonic_harness! { #[kani::unwind(32)] fn c01_unpack_15() { check_unpack::<15>() } }
+mnemonic_harness! { #[kani::unwind(38)] fn c01_unpack_18() { check_unpack::<18>() } }
+mnemonic_harness! { #[kani::unwind(44)] fn c01_unpack_21() { check_unpack::<21>() } }
+mnemonic_harness! { #[kani::unwind(50)] fn c01_unpack_24() { check_unpack::<24>() } }
 
 // Word counts other than the five supported ones: always an error (and never a panic), whatever the
 // words are. One query per count, all indices symbolic.
@@ -246,19 +274,19 @@ macro_rules! count_harness {
     )*};
 }
 count_harness! {
-    c01_count_00 = 0, 1, 8; c01_count_01 = 1, 1, 8; c01_count_02 = 2, 2, 10; c01_count_03 = 3, 3, 12;
-    c01_count_06 = 6, 6, 18; c01_count_09 = 9, 9, 24; c01_count_10 = 10, 10, 26; c01_count_11 = 11, 11, 28;
-    c01_count_13 = 13, 13, 54; c01_count_14 = 14, 14, 58; c01_count_16 = 16, 16, 66; c01_count_17 = 17, 17, 70;
-    c01_count_19 = 19, 19, 78; c01_count_20 = 20, 20, 82; c01_count_22 = 22, 22, 90; c01_count_23 = 23, 23, 94;
-    c01_count_25 = 25, 24, 56; c01_count_26 = 26, 24, 58; c01_count_27 = 27, 24, 60; c01_count_30 = 30, 24, 66;
-    c01_count_33 = 33, 24, 72; c01_count_36 = 36, 24, 78; c01_count_40 = 40, 24, 86;
+    c01_count_00 = 0, 1, 8; c01_count_01 = 1, 1, 8; c01_count_02 = 2, 2, 8; c01_count_03 = 3, 3, 9;
+    c01_count_06 = 6, 6, 15; c01_count_09 = 9, 9, 21; c01_count_10 = 10, 10, 23; c01_count_11 = 11, 11, 25;
+    c01_count_13 = 13, 13, 29; c01_count_14 = 14, 14, 31; c01_count_16 = 16, 16, 35; c01_count_17 = 17, 17, 37;
+    c01_count_19 = 19, 19, 41; c01_count_20 = 20, 20, 43; c01_count_22 = 22, 22, 47; c01_count_23 = 23, 23, 49;
+    c01_count_25 = 25, 24, 53; c01_count_26 = 26, 24, 55; c01_count_27 = 27, 24, 57; c01_count_30 = 30, 24, 63;
+    c01_count_33 = 33, 24, 69; c01_count_36 = 36, 24, 75; c01_count_40 = 40, 24, 83;
 }
 
 // ------------------------------------------------------------------------------------- printing
 // to_phrase for every buffer content and each of the five lengths: asks the list for exactly the
 // 11-bit big-endian groups of entropy || hash, in order, and joins the words with single spaces.
 mnemonic_harness! {
-    #[kani::unwind(50)]
+    #[kani::unwind(26)]
     fn c01_to_phrase() {
         let buf: [u8; 64] = kani::any();
         let which: u8 = kani::any();
@@ -298,11 +326,7 @@ mnemonic_harness! {
             }
             let pb = phrase.as_bytes();
             assert!(pb.len() == 2 * words - 1, "separator layout");
-            let mut i = 0;
-            while i < pb.len() {
-                assert!(pb[i] == if i % 2 == 0 { b'w' } else { b' ' }, "words must be joined by single spaces");
-                i += 1;
-            }
+            assert!(bytes_eq_sym::<3>(pb, &DUMMY_W.as_bytes()[..2 * words - 1]), "words must be joined by single spaces");
         } else {
             let list = Language::English.wordlist();
             let mut ws = Vec::new();
@@ -386,18 +410,15 @@ unsafe fn getentropy_stub(buffer: *mut u8, len: usize) -> std::os::raw::c_int {
     if rc >= 0 {
         let bytes: [u8; 32] = kani::any();
         ENT_BYTES = bytes;
-        let mut i = 0;
-        while i < len && i < 32 {
-            *buffer.add(i) = bytes[i];
-            i += 1;
-        }
+        let n = if len < 32 { len } else { 32 };
+        copy_bytes_sym::<2>(core::slice::from_raw_parts_mut(buffer, n), &bytes[..n]);
     }
     rc
 }
 
 mnemonic_harness! {
     #[kani::stub(crate::rand::getentropy, getentropy_stub)]
-    #[kani::unwind(36)]
+    #[kani::unwind(5)]
     fn c12_random() {
         let words: usize = kani::any();
         unsafe {
@@ -421,17 +442,10 @@ mnemonic_harness! {
                     assert!(req == words * 4 / 3, "entropy request is not 4/3 bytes per word");
                     assert!(m.len == req, "entropy length");
                     let ent = unsafe { ENT_BYTES };
-                    let mut i = 0;
-                    while i < req {
-                        assert!(m.buf[i] == ent[i], "entropy byte does not come from the OS source");
-                        i += 1;
-                    }
+                    assert!(req <= 32);
+                    assert!(bytes_eq_sym::<2>(&m.buf[..req], &ent[..req]), "entropy byte does not come from the OS source");
                     let hash = expected_hash(&ent[..req]);
-                    let mut i = 0;
-                    while i < 32 {
-                        assert!(m.buf[req + i] == hash[i], "checksum is not the hash of the entropy");
-                        i += 1;
-                    }
+                    assert!(bytes_eq(&m.buf[req..req + 32], &hash), "checksum is not the hash of the entropy");
                     assert!(m.mnemonic_length() == words, "reported length");
                 }
                 Err(_) => {
@@ -471,7 +485,7 @@ mnemonic_harness! {
 // rand::get_entropy on its own: one request for exactly the slice, negative status -> Err.
 mnemonic_harness! {
     #[kani::stub(crate::rand::getentropy, getentropy_stub)]
-    #[kani::unwind(36)]
+    #[kani::unwind(5)]
     fn c12_get_entropy() {
         let n: usize = kani::any();
         kani::assume(n <= 32);
@@ -486,11 +500,7 @@ mnemonic_harness! {
             assert!(got.is_ok() == (rc >= 0), "status mapping");
             if got.is_ok() {
                 let ent = unsafe { ENT_BYTES };
-                let mut i = 0;
-                while i < n {
-                    assert!(buf[i] == ent[i]);
-                    i += 1;
-                }
+                assert!(bytes_eq_sym::<2>(&buf[..n], &ent[..n]));
             }
         } else {
             assert!(got.is_ok());
@@ -498,3 +508,192 @@ mnemonic_harness! {
         core::mem::forget(got);
     }
 }
+
+// ------------------------------------------------------------------------------------- seed (C02)
+// PBKDF2 is an uninterpreted function: the harness decides which password, salt, round count, PRF
+// and output length it is called with, and that its output is returned unchanged.
+static mut PB_CALLS: usize = 0;
+static mut PB_PASS: [u8; 64] = [0; 64];
+static mut PB_PASS_LEN: usize = 0;
+static mut PB_SALT: [u8; 48] = [0; 48];
+static mut PB_SALT_LEN: usize = 0;
+static mut PB_ROUNDS: u32 = 0;
+static mut PB_OUT_LEN: usize = 0;
+static mut PB_OUT: [u8; 64] = [0; 64];
+static mut PB_PRF_OK: bool = false;
+
+fn pbkdf2_stub<PRF>(password: &[u8], salt: &[u8], rounds: u32, res: &mut [u8]) -> core::result::Result<(), hmac::digest::InvalidLength>
+where
+    PRF: hmac::digest::KeyInit + hmac::digest::Update + hmac::digest::FixedOutput + Clone + Sync,
+{
+    unsafe {
+        PB_CALLS += 1;
+        PB_PASS_LEN = password.len();
+        let n = if password.len() < 64 { password.len() } else { 64 };
+        copy_bytes_sym::<4>(&mut PB_PASS, &password[..n]);
+        PB_SALT_LEN = salt.len();
+        let n = if salt.len() < 48 { salt.len() } else { 48 };
+        copy_bytes_sym::<3>(&mut PB_SALT, &salt[..n]);
+        PB_ROUNDS = rounds;
+        PB_OUT_LEN = res.len();
+        PB_PRF_OK = core::any::type_name::<PRF>() == core::any::type_name::<Hmac<Sha512>>();
+        let out: [u8; 64] = kani::any();
+        PB_OUT = out;
+        let n = if res.len() < 64 { res.len() } else { 64 };
+        copy_bytes_sym::<4>(res, &out[..n]);
+    }
+    Ok(())
+}
+
+/// Passphrase palette with the NFKD decomposition and canonical combining classes taken from the
+/// Unicode Character Database (generated with Python's unicodedata, independent of the
+/// unicode-normalization crate): ASCII, precomposed accent, full-width, ligature, enclosed digit,
+/// astral plane, two combining marks of different classes, a compatibility letter whose
+/// decomposition carries a mark, and a Hangul syllable (algorithmic decomposition).
+const PALETTE: [(u32, [u32; 3], usize); 10] = [
+    (0x61, [0x61, 0, 0], 1),
+    (0xC5, [0x41, 0x30A, 0], 2),
+    (0xFF46, [0x66, 0, 0], 1),
+    (0xFB01, [0x66, 0x69, 0], 2),
+    (0x2460, [0x31, 0, 0], 1),
+    (0x1F600, [0x1F600, 0, 0], 1),
+    (0x301, [0x301, 0, 0], 1),
+    (0x323, [0x323, 0, 0], 1),
+    (0x1E9B, [0x73, 0x307, 0], 2),
+    (0xAC01, [0x1100, 0x1161, 0x11A8], 3),
+];
+fn ccc(c: u32) -> u8 {
+    match c {
+        0x30A | 0x301 | 0x307 => 230,
+        0x323 => 220,
+        _ => 0,
+    }
+}
+fn push_utf8(out: &mut [u8; 48], at: usize, c: u32) -> usize {
+    if c < 0x80 {
+        out[at] = c as u8;
+        at + 1
+    } else if c < 0x800 {
+        out[at] = 0xC0 | (c >> 6) as u8;
+        out[at + 1] = 0x80 | (c & 0x3F) as u8;
+        at + 2
+    } else if c < 0x10000 {
+        out[at] = 0xE0 | (c >> 12) as u8;
+        out[at + 1] = 0x80 | ((c >> 6) & 0x3F) as u8;
+        out[at + 2] = 0x80 | (c & 0x3F) as u8;
+        at + 3
+    } else {
+        out[at] = 0xF0 | (c >> 18) as u8;
+        out[at + 1] = 0x80 | ((c >> 12) & 0x3F) as u8;
+        out[at + 2] = 0x80 | ((c >> 6) & 0x3F) as u8;
+        out[at + 3] = 0x80 | (c & 0x3F) as u8;
+        at + 4
+    }
+}
+
+fn check_seed<const P: usize>() {
+    let buf: [u8; 64] = kani::any();
+    let which: u8 = kani::any();
+    kani::assume(which < 5);
+    let len = 16 + 4 * which as usize;
+    let words = len * 3 / 4;
+    let m = Mnemonic { language: Language::English, buf, len };
+    let choice: [u8; P] = kani::any();
+    let mut pass = String::new();
+    let mut k = 0;
+    while k < P {
+        kani::assume((choice[k] as usize) < PALETTE.len());
+        // one concrete push per arm
+        match choice[k] {
+            0 => pass.push('\u{61}'),
+            1 => pass.push('\u{C5}'),
+            2 => pass.push('\u{FF46}'),
+            3 => pass.push('\u{FB01}'),
+            4 => pass.push('\u{2460}'),
+            5 => pass.push('\u{1F600}'),
+            6 => pass.push('\u{301}'),
+            7 => pass.push('\u{323}'),
+            8 => pass.push('\u{1E9B}'),
+            _ => pass.push('\u{AC01}'),
+        }
+        k += 1;
+    }
+    unsafe {
+        PB_CALLS = 0;
+        wl::WORD_POS = 0;
+    }
+    let seed = m.seed(&pass);
+    // expected salt: "mnemonic" || UTF-8(NFKD(passphrase))
+    let mut cps = [0u32; 10];
+    let mut n = 0;
+    let mut k = 0;
+    while k < P {
+        let (_, d, dl) = PALETTE[choice[k] as usize];
+        let mut j = 0;
+        while j < dl {
+            cps[n] = d[j];
+            n += 1;
+            j += 1;
+        }
+        k += 1;
+    }
+    // canonical ordering: stable sort of combining marks by class
+    let mut pass_no = 0;
+    while pass_no < n {
+        let mut i = 1;
+        while i < n {
+            let (a, b) = (ccc(cps[i - 1]), ccc(cps[i]));
+            if b != 0 && a > b {
+                let t = cps[i - 1];
+                cps[i - 1] = cps[i];
+                cps[i] = t;
+            }
+            i += 1;
+        }
+        pass_no += 1;
+    }
+    let mut salt = [0u8; 48];
+    salt[..8].copy_from_slice(b"mnemonic");
+    let mut sl = 8;
+    let mut i = 0;
+    while i < n {
+        sl = push_utf8(&mut salt, sl, cps[i]);
+        i += 1;
+    }
+    kani::cover!(P == 0 || choice[0] == 1, "precomposed accent");
+    kani::cover!(P < 2 || (choice[0] == 8 && choice[1] == 7), "marks reordered across characters");
+    kani::cover!(which == 2, "18 words");
+    if stubs_active() {
+        unsafe {
+            assert!(PB_CALLS == 1, "exactly one key stretching call");
+            assert!(PB_ROUNDS == 2048, "PBKDF2 round count");
+            assert!(PB_OUT_LEN == 64, "seed length");
+            assert!(PB_PRF_OK, "PRF must be HMAC-SHA512");
+            // password = canonical phrase of the stored entropy: W one-letter tokens joined by single spaces
+            // (the word stub prints "w"; which words are printed is decided by c01_to_phrase)
+            assert!(PB_PASS_LEN == 2 * words - 1, "password is not the canonical phrase");
+            assert!(bytes_eq_sym::<4>(&PB_PASS[..PB_PASS_LEN], &DUMMY_W.as_bytes()[..2 * words - 1]), "password is not the canonical phrase");
+            assert!(wl::WORD_POS == words, "phrase must be rendered once from the stored entropy");
+            assert!(PB_SALT_LEN == sl, "salt length differs from 'mnemonic' + NFKD(passphrase)");
+            assert!(bytes_eq_sym::<3>(&PB_SALT[..sl], &salt[..sl]), "salt differs from 'mnemonic' + NFKD(passphrase)");
+            assert!(bytes_eq(&seed[..], &PB_OUT), "seed is not the PBKDF2 output");
+        }
+    } else {
+        let mut expect = [0u8; 64];
+        pbkdf2::pbkdf2::<Hmac<Sha512>>(m.to_phrase().as_bytes(), &salt[..sl], 2048, &mut expect).unwrap();
+        assert!(*seed == expect, "seed differs from PBKDF2(phrase, 'mnemonic' + NFKD(passphrase))");
+    }
+}
+
+macro_rules! seed_harness {
+    ($($name:ident = $p:expr, $u:expr;)*) => {$(
+        crate::verif_harness_realfmt! {
+            #[kani::stub(pbkdf2::pbkdf2, pbkdf2_stub)]
+            #[kani::stub(crate::mnemonic::wordlist::Wordlist::word, crate::mnemonic::wordlist::Wordlist::__verif_word)]
+            #[kani::stub(crate::mnemonic::wordlist::for_language, crate::mnemonic::wordlist::__verif::__verif_for_language)]
+            #[kani::unwind($u)]
+            fn $name() { check_seed::<$p>() }
+        }
+    )*};
+}
+seed_harness! { c02_seed_p0 = 0, 28; c02_seed_p1 = 1, 28; c02_seed_p2 = 2, 28; c02_seed_p3 = 3, 28; }
